@@ -158,21 +158,43 @@ pub fn run(ctx: &Ctx) -> Outcome {
         let h = rng.int(1, 16) as i32;
         let n = (w * h) as usize;
         let init = canary(&mut rng, n);
-        let iw = rng.int(1, 7) as i32;
-        let ih = rng.int(1, 7) as i32;
+        // now and then the image is exactly as large as the surface and lands exactly on it
+        let fits = rng.chance(0.1);
+        let iw = if fits { w } else { rng.int(1, 7) as i32 };
+        let ih = if fits { h } else { rng.int(1, 7) as i32 };
         let data = random_image_data(&mut rng, iw, ih);
-        let (x, y) = (rng.int(-8, w as i64 + 2) as f32, rng.int(-8, h as i64 + 2) as f32);
-        let o = DrawOptions { blend_mode: random_mode(&mut rng), alpha: random_alpha(&mut rng), antialias: if rng.chance(0.7) { AntialiasMode::Gray } else { AntialiasMode::None } };
+        let (x, y) = if fits && rng.chance(0.8) { (0., 0.) } else { (rng.int(-8, w as i64 + 2) as f32, rng.int(-8, h as i64 + 2) as f32) };
+        let o = DrawOptions { blend_mode: if fits && rng.chance(0.5) { BlendMode::Src } else { random_mode(&mut rng) }, alpha: random_alpha(&mut rng), antialias: if rng.chance(0.7) { AntialiasMode::Gray } else { AntialiasMode::None } };
         let img = Image { width: iw, height: ih, data: &data[..] };
+        // both routes inside the same context: none, an open layer, an open layer whose clip was popped
+        let context = rng.below(4);
+        let enter = |dt: &mut DrawTarget| match context {
+            0 => dt.push_layer_with_blend(0.5, BlendMode::SrcOver),
+            1 => {
+                dt.push_clip_rect(IntRect::new(IntPoint::new(1, 0), IntPoint::new(w, h - 1)));
+                dt.push_layer(1.0);
+                dt.pop_clip();
+            }
+            _ => {}
+        };
+        let leave = |dt: &mut DrawTarget| {
+            if context <= 1 {
+                dt.pop_layer();
+            }
+        };
         let mut a = DrawTarget::from_vec(w, h, init.clone());
+        enter(&mut a);
         a.draw_image_at(x, y, &img, &o);
+        leave(&mut a);
         let mut b = DrawTarget::from_vec(w, h, init.clone());
+        enter(&mut b);
         let filter = if rng.chance(0.5) { FilterMode::Nearest } else { FilterMode::Bilinear };
         let extend = if rng.chance(0.5) { ExtendMode::Pad } else { ExtendMode::Repeat };
         let src = Source::Image(img, extend, filter, Transform::translation(-x, -y));
         b.fill(&rect_path(x, y, iw as f32, ih as f32), &src, &o);
+        leave(&mut b);
         let mut co = CaseOut::default();
-        co.hash = crate::prng::hash_str(&format!("{:?}{:?}{:?}{:?}", (w, h, x, y, iw, ih), data, o, init));
+        co.hash = crate::prng::hash_str(&format!("{:?}{:?}{:?}{:?}{}", (w, h, x, y, iw, ih), data, o, init, context));
         let changed = a.get_data().iter().zip(init.iter()).filter(|(p, q)| p != q).count();
         co.nontrivial = changed > 0 && changed < n;
         st.add("draw_image_at_pairs", 1);
